@@ -285,6 +285,8 @@ class Machine:
                 r = self.deref(ops.pop())
                 l = self.deref(ops.pop())
                 sym = a[0]
+                if (l is NIL or r is NIL) and sym not in ("=", "is"):
+                    raise Fail("bin_op", "invalid binary operation on nil")     # no operator impl accepts Optional(None)
                 if sym in ("+", "-", "*", "/", "%"):
                     res = arith(o, sym, l, r)
                 elif sym in ("<", "<=", ">", ">="):
